@@ -38,7 +38,8 @@ func init() {
 		Selftest:  selftest,
 		Required: []string{"big-operand", "ratio-operand", "overflow-boundary", "float-compare",
 			"bit-op", "bit-negative-bignum", "bit-sign-extension", "boole", "byte-spec", "byte-beyond-width-of-negative",
-			"byte-beyond-first-word", "nary-no-argument", "nary-one-argument", "nary-mixed-representations", "nary-float-compare"},
+			"byte-beyond-first-word", "nary-no-argument", "nary-one-argument", "nary-mixed-representations", "nary-float-compare",
+			"site-case", "site-first-result-held-by-reference", "site-result-handed-back-as-operand"},
 		Bound: func(tier string) string {
 			n := len(intGrid(tier))
 			bits := fmt.Sprintf("; bitwise: all pairs of the %d integers for logandc1 logandc2 logeqv lognand lognor logorc1 logorc2 logtest and "+
@@ -49,6 +50,10 @@ func init() {
 				"resp. %d rationals (the others), comparisons over all triples with at least one float over %d alphabets of 9 "+
 				"(n-1, n, n+1 and the double / single / long floats equal and adjacent to n)",
 				n, n, len(byteSizes), len(bytePositions), n, len(newbyteGrid()), len(naryIntGrid(tier)), len(naryRatGrid(tier)), len(naryFloatAlphabets(tier)))
+			bits += fmt.Sprintf("; call sites: one lambda body per operator (%d binary, ash, expt, %d unary) evaluated twice and a third time with its own first result as operand, "+
+				"first operands over all pairs of a %d-value grid (fixnum / bignum / ratio on both sides of 2^62, 2^63, 2^64, 2^100), %d second operand pairs; the first result "+
+				"looked at after the later calls, the later results and the operand objects are compared with one evaluation of a fresh copy of the form (%d cases)",
+				len(siteBinOps()), len(unOps)+2, len(siteGridText), len(siteSecond), siteCaseCount())
 			if tier == engine.Thorough {
 				return fmt.Sprintf("all pairs over %d integers + %d ratios for 24 binary operators, all unary, expt exponent -3..70, ash shift -130..130, all triples over an 11-element subgrid for n-ary + * - < = <= max min, integer (grid + 12 precision-edge integers of the single and double formats) x adjacent single/double/long floats for 6 comparisons", len(intGrid(engine.Thorough)), len(ratGrid())) + bits
 			}
@@ -263,6 +268,8 @@ func enumerate(tier string, emit func(string)) {
 	}
 	// sixth round: the other bitwise functions, boole, the byte operations, n-ary forms (bits.go)
 	enumerateBits(tier, "", emit)
+	// round 8: one call site evaluated twice, the first result looked at again (site.go)
+	enumerateSite(tier, emit)
 }
 
 func parseRat(s string) *big.Rat {
@@ -556,6 +563,8 @@ func exec(spec string) (res engine.Result) {
 		return execByte(parts)
 	case "f":
 		return execFloat(parts)
+	case "s", "s1":
+		return execSite(parts)
 	default:
 		res.Fail("harness:bad-spec", spec)
 		return
